@@ -31,7 +31,8 @@ def getTarget (j : Json) : Except String Target := do
   -- AllOutputs(): the bin output (always a file) comes last if it is set
   let bin := match getBytes j "bin" with | .ok b => b | .error _ => []
   let all := if bin = [] then outs else outs ++ [⟨.file, bin⟩]
-  pure ⟨l, deps, inputs, all, ← getBool j "testonly", ← getBool j "cmd"⟩
+  let globs := match getBytesList j "globs" with | .ok g => g | .error _ => []
+  pure ⟨l, deps, inputs, globs, all, ← getBool j "testonly", ← getBool j "cmd"⟩
 
 def getAlias (j : Json) : Except String Alias := do
   let l ← getLabel j
@@ -51,7 +52,9 @@ def kindName : Kind → String
 def getCfg (j : Json) : Except String Cfg := do
   match j.getObjVal? "cfg" with
   | .error _ => pure Cfg.current
-  | .ok c => pure ⟨← getBool c "skipSelf", ← getBool c "checkDirs", ← getBool c "dotRoot"⟩
+  | .ok c =>
+    let opt := fun (k : String) => match getBool c k with | .ok b => b | .error _ => true
+    pure ⟨opt "skipSelf", opt "checkDirs", opt "dotRoot", opt "checkGlobs"⟩
 
 def reject (phase : String) (ks : List Kind) : Json :=
   Json.mkObj [("verdict", Json.str "reject"), ("phase", Json.str phase),
@@ -112,7 +115,7 @@ def getBareNodes (j : Json) : Except String (List Node) := do
   (← getArr j "nodes").toList.mapM fun n => do
     let l ← getLabel (← n.getObjVal? "label")
     let deps ← getLabels n "deps"
-    pure (Node.target ⟨l, deps, [], [], false, true⟩)
+    pure (Node.target ⟨l, deps, [], [], [], false, true⟩)
 
 /-- {"op":"analysis.ancestors","nodes":[..],"queries":[label..]} → {"sets":[[label..]..]} -/
 def ancestorsH : Handler := fun j => do
